@@ -6,6 +6,7 @@
 #include "../managers/types/enums.h"
 #include "../services/debug_service.h"
 #include <iostream>
+#include <memory>
 
 // IF文の実行
 void ControlFlowExecutor::execute_if_statement(const ASTNode *node) {
@@ -366,6 +367,13 @@ void ControlFlowExecutor::execute_match_statement(const ASTNode *node) {
     for (const auto &arm : node->match_arms) {
         bool arm_matches = false;
 
+        // The binding of an arm lives only for that arm: it is created as a
+        // fresh variable in the current scope (never by assigning to an
+        // existing variable of the same name) and whatever it hid there is
+        // put back when the arm is left.
+        std::string bound_name;
+        std::unique_ptr<Variable> hidden_var;
+
         switch (arm.pattern_type) {
         case PatternType::PATTERN_ENUM_VARIANT:
             // Enumバリアントパターン
@@ -389,6 +397,21 @@ void ControlFlowExecutor::execute_match_statement(const ASTNode *node) {
                                       << ", associated_int_value="
                                       << enum_value.associated_int_value
                                       << std::endl;
+                        }
+
+                        {
+                            auto &scope_vars =
+                                interpreter_->current_scope().variables;
+                            auto hidden = scope_vars.find(binding_name);
+                            if (hidden != scope_vars.end()) {
+                                hidden_var =
+                                    std::make_unique<Variable>(hidden->second);
+                                scope_vars.erase(hidden);
+                            }
+                            Variable fresh;
+                            fresh.type = TYPE_UNKNOWN;
+                            scope_vars.emplace(binding_name, fresh);
+                            bound_name = binding_name;
                         }
 
                         // v0.13.4: associated_valueがある場合、それを使用
@@ -460,25 +483,27 @@ void ControlFlowExecutor::execute_match_statement(const ASTNode *node) {
         if (arm_matches) {
             debug_msg(DebugMsgId::INTERPRETER_SWITCH_CASE_MATCHED, "");
 
-            // armの本体を実行
-            interpreter_->execute_statement(arm.body.get());
-
             // バインディング変数をクリーンアップ
-            if (!arm.bindings.empty()) {
-                for (const auto &binding : arm.bindings) {
-                    // ワイルドカード(_)の場合はクリーンアップ不要
-                    if (binding == "_") {
-                        continue;
-                    }
-                    // TODO: スコープ管理を適切に実装（現在は単純削除）
-                    Variable *binding_var =
-                        interpreter_->find_variable(binding);
-                    if (binding_var) {
-                        // 変数の削除は慎重に行う必要がある
-                        // 現在はスコープが自動管理されるため、ここでは何もしない
-                    }
+            auto end_binding = [&]() {
+                if (bound_name.empty()) {
+                    return;
                 }
+                auto &scope_vars = interpreter_->current_scope().variables;
+                scope_vars.erase(bound_name);
+                if (hidden_var) {
+                    scope_vars.emplace(bound_name, *hidden_var);
+                }
+            };
+
+            // armの本体を実行
+            try {
+                interpreter_->execute_statement(arm.body.get());
+            } catch (...) {
+                // return / break / continue などで抜ける場合も同様
+                end_binding();
+                throw;
             }
+            end_binding();
 
             matched = true;
             break; // 自動break（最初にマッチしたarmのみ実行）
